@@ -120,7 +120,7 @@ fn label_positions(p: &Program) -> Vec<(String, usize)> {
 
 fn cases() -> impl Strategy<Value = Case> {
     (
-        prop::collection::vec((raw_program(12), 0u8..10, any::<u8>()), 2..8),
+        prop::collection::vec((raw_program(12), 0u8..13, any::<u8>()), 2..8),
         any::<u8>(),
         any::<bool>(),
     )
@@ -176,6 +176,20 @@ fn cases() -> impl Strategy<Value = Case> {
                             kind = "valid";
                         }
                     }
+                    10 | 11 | 12 => {
+                        // a stack mnemonic, in some letter case: with the feature off the lexer
+                        // refuses it (at the end, at the start, or right after the first line)
+                        let line = ["PUSH R0\n", "Pop r1\n", "pUsH r2\n", "CALL start_\n", "Rets\n", "push r0\n", "RETS\n", "cAll x_y\n"][lay as usize % 8];
+                        match variant {
+                            10 => text.push_str(line),
+                            11 => text = format!("{line}{text}"),
+                            _ => {
+                                let at = text.find('\n').map(|i| i + 1).unwrap_or(text.len());
+                                text.insert_str(at, line);
+                            }
+                        }
+                        kind = "stack-mnemonic-line";
+                    }
                     _ => {
                         if let Some(prev) = sources.last() {
                             text = prev.clone();
@@ -211,7 +225,7 @@ impl Prop for C19 {
     }
     fn rule(&self) -> &'static str {
         "Sequences of 2-7 generated sources assembled on one thread with lace::reset_state() between them: valid programs; failing in the lexer (at start / end), in the parser after labels were recorded, at backpatch (undefined label), at emission (label out of reach), \
-         on a duplicate label; the previous source repeated; plus directed sequences whose second source records 300 .. 60,000 labels (valid, failing at backpatch, failing on a duplicate) followed by small sources that re-define and that only reference those names; and a failing source whose undefined label has several case-differing siblings among its own labels, after predecessors of 0..1000 labels; all drawing label names from the same pool slice so that consecutive sources share names; both feature settings. Oracle: every assembly of the sequence equals (image words, origin, breakpoints, statement spans, or rendered diagnostic + spans) \
+         on a duplicate label; holding a line with a stack mnemonic in some letter case (refused by the lexer when the feature is off); the previous source repeated; plus directed sequences whose second source records 300 .. 60,000 labels (valid, failing at backpatch, failing on a duplicate) followed by small sources that re-define and that only reference those names; and a failing source whose undefined label has several case-differing siblings among its own labels, after predecessors of 0..1000 labels; all drawing label names from the same pool slice so that consecutive sources share names; both feature settings. Oracle: every assembly of the sequence equals (image words, origin, breakpoints, statement spans, or rendered diagnostic + spans) \
          the assembly of the same text on a fresh thread. Non-trivial: consecutive sources share >= 1 label name and the earlier one failed after recording it or defined it at a different word. Distinct = hash(sequence, flag)."
     }
     fn assumptions(&self) -> Vec<String> {
@@ -232,6 +246,7 @@ impl Prop for C19 {
                     "backpatch-failure" => "kind-backpatch-failure",
                     "emit-failure" => "kind-emit-failure",
                     "duplicate-label-failure" => "kind-duplicate-label",
+                    "stack-mnemonic-line" => "kind-stack-mnemonic-line",
                     _ => "kind-repeat",
                 });
             }
